@@ -42,7 +42,10 @@ def gen_scenario(rng: random.Random, sid, n_members=None, n_faults=None, quiet=1
             prog.append(["stop"])
         consumers.append({"name": f"c{i}", "group": "g", "topics": sorted(subs), "assignors": asg,
                           "auto_commit": rng.random() < 0.8, "auto_commit_interval_ms": rng.choice([100, 300, 1000]),
-                          "cb_delay": rng.choice([0, 0.01, 0.2, 0.5]), "program": prog})
+                          "cb_delay": rng.choice([0, 0.01, 0.2, 0.5]), "program": prog,
+                          # the listener's shape: coroutine functions, plain functions, a plain callable
+                          # returning a coroutine (all documented)
+                          "listener_kind": rng.choice(["async", "async", "async", "returns_coroutine", "sync"])})
     events = []
     for _ in range(rng.choice([0, 1, 2, 3])):
         t = rng.choice(list(topics))
